@@ -187,6 +187,12 @@ pub fn cmp_val(r: &Val, i: &Val, sm: &SpanMap, base: usize) -> Result<(), String
 /// Structural sanity of every span embedded in an implementation value (oracle-free):
 /// start <= end, inside the input, children nested within their parent and ordered.
 pub fn span_sanity(v: &Val, sm: &SpanMap, is_char_boundary: &dyn Fn(usize) -> bool) -> Result<(), String> {
+    span_sanity_opts(v, sm, is_char_boundary, true)
+}
+
+/// `nesting = false`: only the per-span checks. Needed where a lookahead (rewind / and_is / not) sits inside an item
+/// source that is observed as a whole: what the lookahead captured lies beyond what its parent consumed, by design.
+pub fn span_sanity_opts(v: &Val, sm: &SpanMap, is_char_boundary: &dyn Fn(usize) -> bool, nesting: bool) -> Result<(), String> {
     fn go(
         v: &Val,
         parent: Option<(usize, usize)>,
@@ -231,7 +237,33 @@ pub fn span_sanity(v: &Val, sm: &SpanMap, is_char_boundary: &dyn Fn(usize) -> bo
             _ => Ok(()),
         }
     }
-    go(v, None, sm, is_char_boundary)
+    if nesting {
+        go(v, None, sm, is_char_boundary)
+    } else {
+        // flatten: every span on its own
+        fn flat(v: &Val, out: &mut Vec<Val>) {
+            match v {
+                Val::Span(s, e) => out.push(Val::Span(*s, *e)),
+                Val::Obs(_, s, e, inner) => {
+                    out.push(Val::Span(*s, *e));
+                    flat(inner, out)
+                }
+                Val::List(l) => l.iter().for_each(|x| flat(x, out)),
+                Val::Pair(a, b) => {
+                    flat(a, out);
+                    flat(b, out)
+                }
+                Val::Opt(Some(a)) | Val::St(_, _, a) | Val::Mark(_, a) | Val::Cx(_, a) => flat(a, out),
+                _ => {}
+            }
+        }
+        let mut all = vec![];
+        flat(v, &mut all);
+        for x in &all {
+            go(x, None, sm, is_char_boundary)?;
+        }
+        Ok(())
+    }
 }
 
 pub fn pats(a: &AltR) -> Vec<Pat> {
